@@ -44,6 +44,10 @@ CHECKS = {
             "DESIGN.md §3 C11",
             "All histories over {add (catalogue order), publish, remove, one read, tick} to depth 8 (quick) / 11 (thorough, state cap reported) for both publish modes x multiplex 1..2 x 1..2 queues x multi-packet and single-packet FDT instances; the monitor reassembles every FDT instance from the TOI-0 packets with the independent codec and requires, for every object packet, a completely emitted instance listing its TOI, no object packet inside a partly emitted instance, and none between a publication (explicit, or automatic at transfer start) and the complete emission of a new instance.",
             "Trusted: rfc.rs, the fingerprint (compact derived Debug of the Sender; checked on every run against the general canonicaliser and by re-running the search), the small catalogue of 3 objects."),
+    "C12": ("model_checking", "explicit-state BFS over the real Sender's transition function with a lifecycle reference monitor", "statex",
+            "DESIGN.md §3 C12",
+            "All histories over {add, publish, remove, trigger(none|+2 ticks), one read, drain, tick 0.5 s / 1.5 s} to depth 7 (quick) / 10 (thorough) for max_transfer_count 1..3 x carousel none/delay/interval x immediate stop x publish mode; a reference counter per object fed by Subscriber events and independently decoded packets decides: never more transfers than configured, finished or removed objects disappear from is_added / nb_objects / get_objects_in_fdt, nb_transfers equals the Stop events (and the wire at quiescent points), removal semantics (nothing after removing a waiting object; at most one flagged packet after a forced stop; no new transfer after removal), a read that returns None never leaves an eligible transfer or a due carousel turn behind, drains terminate.",
+            "Trusted: rfc.rs, fingerprint (as C11), 2 objects of 2-3 packets; carousel clause applied per turn for max_transfer_count > 1 (DESIGN §5)."),
 }
 
 NOT_YET = {}
